@@ -29,11 +29,16 @@ structure Cfg where
   reqAd : Option AdSpec
   respAd : Option AdSpec
   dflt : Int
-deriving Repr
+  /-- RequestAdaptor request-line part (method / path / host) and its oracles: `σ` =
+  `regexp.ReplaceAllString`, `esc` = net/url's default path encoding. -/
+  reqLine : ReqLineAd := {}
+  σ : Nat → String → String → String := fun _ p _ => p
+  esc : String → String := id
 
 structure ClientReq (β : Type) where
   method : String
   escapedPath : String     -- `URL.EscapedPath()` of the request-target (net/url oracle)
+  path : String := ""      -- `URL.Path` (decoded; only read by a RequestAdaptor `path:` section)
   rawQuery : String
   host : String
   hdr : Hdr                -- as net/http's server presents it (canonical keys)
@@ -87,11 +92,14 @@ def prepare {β} (ops : BodyOps β) (canon : String → String) (cfg : Cfg) (q :
     | .ok n => .bytes (ops.take n q.body)
     | _ => .bytes q.body
   let m0 : ReqMsg β := ⟨q.hdr, pl⟩
-  match (match cfg.reqAd with | none => some m0 | some a => reqAdaptorHandle ops a m0) with
+  -- RequestAdaptor.Handle: request line (only when the filter is configured), header section, body / compress / decompress
+  let l0 : ReqLine := ⟨q.method, q.path, q.escapedPath, q.host⟩
+  let l := match cfg.reqAd with | none => l0 | some _ => adaptReqLine cfg.σ cfg.esc cfg.reqLine l0
+  match (match cfg.reqAd with | none => some m0 | some a => reqAdaptorFull ops a m0) with
   | none => .adaptorFailed
   | some m =>
     let outHdr := cloneHeader canon hopHeaders m.hdr
-    .ready m ⟨q.method, targetURL cfg.server.url q.escapedPath q.rawQuery, hostSent cfg.server q.host,
+    .ready m ⟨l.method, targetURL cfg.server.url l.escapedPath q.rawQuery, hostSent cfg.server l.host,
        outHdr, m.payload.content, m.payload.isStream⟩
 
 /-- transport + `buildResponse` for one backend reply; `none` = error (⇒ 500). -/
@@ -101,6 +109,18 @@ def proxyResp {β} (ops : BodyOps β) (cfg : Cfg) (method : String) (outHdr : Hd
   let r1 := match cfg.compression with
     | none => r0
     | some ml => proxyCompress ops ml outHdr r0
+  -- a backend that sends fewer bytes than it declared: the transport's body fails with ErrUnexpectedEOF.
+  -- Uncompressed, FetchPayload sees the declared length (short read); behind the gzip compressor the
+  -- length is hidden and the compressor passes the error on (`Payload.fetchFailing`).
+  let short := decide (0 ≤ r0.cl) && decide (ops.len r0.payload.content < r0.cl.toNat) && !(method == "HEAD")
+  let did := match cfg.compression with
+    | none => false
+    | some ml => compressDid ml outHdr r0
+  if short && did then
+    match Payload.fetchFailing cfg.dflt (Payload.effLimit cfg.poolMax cfg.proxyMax) (ops.len r1.payload.content) with
+    | .stream => some { r1 with payload := .stream r1.payload.content }
+    | _ => none
+  else
   fetchPayload ops cfg.dflt (Payload.effLimit cfg.poolMax cfg.proxyMax) (method == "HEAD") r1
 
 def downstream (cfg : Cfg) : List AdSpec := match cfg.respAd with | none => [] | some a => [a]
